@@ -80,22 +80,6 @@ def coordsToks : Coords UInt64 → Tok
 
 def parseJson (s : List Char) : Option BTree := Json.parse jsonPn s
 
-/-- for generator-written documents: a number literal of the RFC grammar whose value overflows binary64 is kept
-as ±Inf bits.  json.Unmarshal converts a literal only when it STORES it (into `Coordinates interface{}`): there an
-overflowing literal is an UnmarshalTypeError ("number 1e400") that is saved and returned at the end, even if a later
-duplicate member replaces the value; in a skipped (foreign) member the literal is only scanned. -/
-def rawPn (tok : List Char) : Option UInt64 :=
-  if !Dec.jsonNumberOk tok then none else
-  match Dec.toBits tok with
-  | some b => some b
-  | none =>   -- Dec.litToBits declines decimal exponents beyond ±5000 (it would compute 10^|scale|): settle them by magnitude
-    (Dec.parseLit tok).bind fun l =>
-      let sign : UInt64 := if l.neg then 0x8000000000000000 else 0
-      if l.mant = 0 then some sign
-      else if l.scale > 5000 then some (sign ||| 0x7ff0000000000000)          -- ≥ 1e5000: overflow
-      else if l.scale + (Dec.ndigits l.mant : Int) < -400 then some sign        -- < 1e-400: rounds to ±0
-      else none
-
 def parseJsonRaw (s : List Char) : Option BTree := Json.parse rawPn s
 
 partial def hasInf : BTree → Bool
@@ -107,10 +91,6 @@ partial def hasInf : BTree → Bool
 def coordsOverflow : BTree → Bool
   | .obj kvs => kvs.any fun kv => foldKey kv.1 == "coordinates".toList && hasInf kv.2
   | _ => false
-
-/-- the conversion `json.Unmarshal` applies to a literal it stores: out-of-range literals (kept as ±Inf bits by
-`rawPn`) have no value -/
-def rangeConv (b : UInt64) : Option UInt64 := if Dec.isFiniteBits b then some b else none
 
 def pairsOf : Tok → List (UInt64 × List Char)
   | b :: r :: t => match parseU64 b with
